@@ -347,6 +347,7 @@ class Facts:
         _symex.PROMOTED.clear()
         _symex._PROMOTED_CACHE.clear()
         _symex.BODIES.clear()
+        _symex.CLOSURE_FIELDS.clear()
         _symex.BODIES.update(self.bodies)
         for k, b in self.bodies.items():
             if b.kind == 'Promoted':
